@@ -549,6 +549,8 @@ def main():
             h = hists[hi]
             small = R.shrink(h, "judge", True) if R.fails(h, True) == "judge" else h
             rr = R.run(small, judge=True, count=False)
+            if rr["jbad"]:
+                verdict = rr["jbad"][0][1]
             c.violation("coherence predicate (Spec.answerOk) false on an answer of the real clients: " + verdict,
                         {"history": small, "stream": name, "impl": rr["out_i"], "model": rr["out_m"], "judge": rr["jbad"],
                          "replay_cmd": "bin/check C10 --replay <this file>"})
